@@ -1,4 +1,5 @@
 HOOK_COMMITS = ["fd134dd", "64b0d90"]
+FIX_COMMITS = ["8d2201b", "df04100"]
 ENGINES = [
  {"name": "E-lib", "path": "/verif/harness", "serves_properties": ["C12","C17","C22","C23","C24","C25","C26","C27"],
   "kind_free_text": "Rust (toolchain 1.88) binary capyv-lib linking /repo's crates: bounded exhaustive enumerators + proptest 1.11 (TestRunner, fixed ChaCha seed from VERIF_SEED, no persistence), reference models / laws as oracles"},
@@ -9,6 +10,15 @@ NOTES = "All checks: ./check <id> --tier quick|thorough; VERIF_SEED is the only 
 NOT_YET = {}
 ELIB_NOTE = "trusts rustc, proptest, the small reference model in the harness source; explores the stated bounded domain exhaustively and beyond it by seeded random generation; absence of violations is established only on what was explored"
 CHECKS = {
+ "C22": {"engine": "E-lib", "technique": "exhaustive enumeration + proptest + corpus mutation vs structural invariants, tokenizer.txt languages and a reference maximal-munch lexer",
+         "level": "all strings of length <= 4 over a 25-symbol class alphabet and all <= 3-atom sequences over 71 atoms (exhaustive), 150k/3M random strings, corpus + 15k/200k corpus mutations; oracle: coverage/contiguity/char-boundary invariants, per-kind language membership read from tokenizer.txt, equality with an independent maximal-munch reference lexer",
+         "note": ELIB_NOTE},
+ "C23": {"engine": "E-lib", "technique": "exhaustive token-sequence enumeration + proptest soups + corpus mutation; oracle: no panic, step-count bound (hook), tree text == input, error ranges in bounds",
+         "level": "all token sequences of length <= 5/6 over a 14-token reduced set and <= 7/8 over 8 bracket/list tokens (exhaustive), 60k/1.5M soups, corpus + 20k/300k mutations, nesting to depth 200 in a child process, both entry points; parser work is bounded by 4096+1024*tokens steps through the cfg hook, so non-termination and super-linear behaviour are deterministic failures",
+         "note": ELIB_NOTE + "; requires hook H3 (parser::verif step counter)"},
+ "C24": {"engine": "E-lib", "technique": "generated expression trees, minimal-parenthesis printer, parse and read back through the ast crate (round trip)",
+         "level": "every binary tree with <= 3 operators over one representative per level, every 2-operator tree over all 18 operators, every prefix x postfix nesting (exhaustive) and 150k/3M random trees of depth <= 5; parsed tree (via ast accessors) must equal the generated tree, both as `x :: e;` and as a REPL line",
+         "note": ELIB_NOTE},
  "C25": {"engine": "E-lib", "technique": "exhaustive enumeration + generated diagnostics vs newline-count model",
          "level": "every string of length <= 7 (quick) / 8 (thorough) over {a,\\n,\\r,\\t,e-acute} x every byte offset is compared with an independent newline-counting model (exhaustive on that domain); rendered diagnostics of ~1200/6000 generated inputs are checked for the 1-based header position",
          "note": ELIB_NOTE},
